@@ -51,7 +51,18 @@ implemented; all additive, everything else is refused as before):
                `return table[mask]` read per row as "the row is kept"
   expressions: `+x`; `np.nan` as a value (the missing number); == / != and truthiness of OB; calls of function-typed
                parameters; list displays of numbers and `lst.append(e)` on LQ; spec key `columns=[M, ..]`: 2-d arrays read as
-               one column -- `np.apply_along_axis(F, 0, M)`, `np.array([E for a, i in zip(M.T, v)])`"""
+               one column -- `np.apply_along_axis(F, 0, M)`, `np.array([E for a, i in zip(M.T, v)])`
+
+Additions of the loop ties of C03 / C20 (marked `[loop ties C03]` / `[loop ties C20]`; additive, fail-closed):
+  statements : `T.iloc[K, T.columns.get_loc('col')] = v` with an integer literal K: a store to the ONE cell (K, 'col') of T,
+               the variable named `T.iloc[K]['col']` (cell_store(); refused -- in the specs whose region holds the statement --
+               beside any other subscript store into T or a second row of the same column);
+               spec key `row_keep=<table>`: `T = T[mask]` read per row as `row_keep__ = row_keep__ and mask` (row_keep__ is
+               bound by `init` and named in `returns`; a non-boolean subscript is refused);
+               `T['col'] = [E for row in T.itertuples(index=False)]` read per row as `T['col'] = E` (cells are `row.<column>`);
+               [loop ties C09] `T = T.assign(c1=v1, ..)` with constant / plain-name values read as `T['c1'] = v1; ..`; a load
+               `T.loc[mask, 'col']` is `T['col'][mask]`;
+               an `if` of assignments none of which is read afterwards is refused (it used to end in an IndexError)"""
 import ast, os, sys, glob, importlib.util
 from fractions import Fraction
 
@@ -245,6 +256,13 @@ class FnTranslator:
             r = self.int_list_subscript(n, env)           # [loop ties C06] x[0], x[-1], x[1:], x[:-1], np.r_[...] on LZ
             if r is not None:
                 return r
+        if isinstance(n, ast.Subscript) and isinstance(n.value, ast.Attribute) and n.value.attr == 'loc' \
+                and isinstance(n.slice, ast.Tuple) and len(n.slice.elts) == 2 and isinstance(n.slice.elts[1], ast.Constant) \
+                and isinstance(n.slice.elts[1].value, str) and isinstance(n.ctx, ast.Load):
+            # [loop ties C09] a LOAD T.loc[mask, 'col']: the column T['col'] under the mask, i.e. T['col'][mask] (the store
+            # form is desugared the same way)
+            col = ast.Subscript(value=n.value.value, slice=n.slice.elts[1], ctx=ast.Load())
+            return self.expr(ast.Subscript(value=col, slice=n.slice.elts[0], ctx=ast.Load()), env)
         if isinstance(n, ast.Subscript) and not isinstance(n.slice, (ast.Constant, ast.Tuple, ast.Slice)):
             # elementwise view of numpy code: v[mask] is v itself, read under the guard `mask`
             # (only legal where the result is consumed under the same mask; checked at the use site)
@@ -610,6 +628,12 @@ class FnTranslator:
                 and not n.keywords and len(n.args) == 1 and isinstance(n.args[0], ast.ListComp):
             # [loop ties C05] np.array([... per column ...]): the vector of the per-column entries, read as this column's entry
             return self.expr(n.args[0], env)
+        if isinstance(f, ast.Name) and f.id == 'row_mask__' and len(n.args) == 1 and not n.keywords:
+            # [loop ties C20] the subscript of `T = T[mask]` under `row_keep`: it must be a boolean mask (see desugar)
+            m = self.expr(n.args[0], env)
+            if m[1] != 'B':
+                raise Refuse('%s: row_keep: %s is subscripted by a non-mask (type %s)' % (self.rel, getattr(self, 'row_keep', '?'), m[1]))
+            return m
         if isinstance(f, ast.Name) and f.id == 'yield_extend__' and not n.keywords:
             x = self.expr(n.args[0], env)
             if x[1] != 'Y':
@@ -1062,6 +1086,42 @@ class FnTranslator:
                     parts.append(a)
                 out += self.desugar(parts)
                 continue
+            if isinstance(s, ast.Assign) and len(s.targets) == 1 and isinstance(s.targets[0], ast.Subscript) \
+                    and isinstance(s.targets[0].value, ast.Name) and isinstance(s.targets[0].slice, ast.Constant) \
+                    and isinstance(s.targets[0].slice.value, str) and isinstance(s.value, ast.ListComp) \
+                    and len(s.value.generators) == 1 and not s.value.generators[0].ifs and not s.value.generators[0].is_async \
+                    and isinstance(s.value.generators[0].target, ast.Name) \
+                    and ast.unparse(s.value.generators[0].iter) == s.targets[0].value.id + '.itertuples(index=False)' \
+                    and not any(isinstance(x, ast.Name) and x.id == s.targets[0].value.id for x in ast.walk(s.value.elt)):
+                # [loop ties C20] T['col'] = [E for row in T.itertuples(index=False)]: entry i of the list is E on row i of T and a
+                # list is assigned to a column by position, so per row it is T['col'] = E, the row's cells being `row.<column>`
+                # (declared as parameters keyed `row.<column>`); E must not mention T itself
+                out.append(ast.Assign(targets=[s.targets[0]], value=s.value.elt))
+                continue
+            if isinstance(s, ast.Assign) and len(s.targets) == 1 and isinstance(s.targets[0], ast.Name) \
+                    and isinstance(s.value, ast.Call) and isinstance(s.value.func, ast.Attribute) and s.value.func.attr == 'assign' \
+                    and isinstance(s.value.func.value, ast.Name) and s.value.func.value.id == s.targets[0].id \
+                    and not s.value.args and s.value.keywords and all(k.arg for k in s.value.keywords) \
+                    and all(isinstance(k.value, (ast.Constant, ast.Name)) for k in s.value.keywords) \
+                    and not any(isinstance(k.value, ast.Name) and k.value.id == s.targets[0].id for k in s.value.keywords):
+                # [loop ties C09] T = T.assign(c1=v1, c2=v2) with constants / plain names (not T) as values: DataFrame.assign sets
+                # the columns in keyword order to the (broadcast) values -- per row T['c1'] = v1; T['c2'] = v2
+                for k in s.value.keywords:
+                    tgt_k = ast.Subscript(value=ast.Name(id=s.targets[0].id, ctx=ast.Load()), slice=ast.Constant(value=k.arg), ctx=ast.Store())
+                    out.append(ast.Assign(targets=[tgt_k], value=k.value))
+                continue
+            rk = getattr(self, 'row_keep', None)
+            if rk and isinstance(s, ast.Assign) and len(s.targets) == 1 and isinstance(s.targets[0], ast.Name) \
+                    and s.targets[0].id == rk and isinstance(s.value, ast.Subscript) and isinstance(s.value.value, ast.Name) \
+                    and s.value.value.id == rk and not isinstance(s.value.slice, (ast.Slice, ast.Tuple, ast.Constant)):
+                # [loop ties C20] spec key `row_keep=<table name>`: `T = T[mask]` (pandas boolean indexing; a non-mask subscript is
+                # refused when the conjunction is typed) read per row as "the row stays in T": row_keep__ = row_keep__ and mask.
+                # The variable row_keep__ is bound by the spec's `init` (true) and named in `returns`; columns of T read later
+                # are the same row's cells.  Any other store into the name T is not rewritten (and then refused as before).
+                mask = ast.Call(func=ast.Name(id='row_mask__', ctx=ast.Load()), args=[s.value.slice], keywords=[])
+                both = ast.BoolOp(op=ast.And(), values=[ast.Name(id='row_keep__', ctx=ast.Load()), mask])
+                out.append(ast.Assign(targets=[ast.Name(id='row_keep__', ctx=ast.Store())], value=both))
+                continue
             tgt = val = None
             if isinstance(s, ast.AugAssign):
                 tgt, val = s.target, ast.BinOp(left=self.as_load(s.target), op=s.op, right=s.value)
@@ -1082,6 +1142,12 @@ class FnTranslator:
                     # the ONE element at position `index` of an array of length `length` (spec key `element`): a masked store
                     # whose mask is "the element's position lies in the slice", with Python's meaning of negative bounds
                     out.append(self.element_slice_store(s, tgt, sl, val))
+                    continue
+                cell = self.cell_store(s, tgt, sl)           # [loop ties C03] T.iloc[K, T.columns.get_loc('col')] = v
+                if cell is not None:
+                    if cell[1]:        # aliasing: refused only if this statement lies in a translated region (unknown call)
+                        val = ast.Call(func=ast.Name(id='REFUSED_' + cell[1], ctx=ast.Load()), args=[], keywords=[])
+                    out.append(ast.Assign(targets=[cell[0]], value=val))
                     continue
                 if isinstance(sl, ast.Tuple) and len(sl.elts) == 2 and isinstance(sl.elts[1], ast.Constant) \
                         and isinstance(sl.elts[1].value, str):
@@ -1106,6 +1172,56 @@ class FnTranslator:
                 x.lineno, x.col_offset = 0, 0
             ast.fix_missing_locations(x)
         return out
+
+    def cell_store(self, s, tgt, sl):
+        """[loop ties C03] `T.iloc[K, T.columns.get_loc('col')] = v` with K an integer literal (0, -1, ..): a store to the ONE cell
+        of table T at row position K and column 'col' -- the variable named `T.iloc[K]['col']` (reading that expression in
+        Python yields exactly this cell), to be declared as a parameter / named in `returns`.  Returns (rewritten target,
+        poison) or None when the statement has another shape.  Fail-closed against aliasing: in the whole function every
+        subscript store into T.iloc / T.loc / T must be such a cell store, and two cell stores into the same column must name
+        the same row (rows 0 and -1 of a one-row table are the same cell); augmented stores are not read.  In those cases the
+        stored value is replaced by a call of an unknown function named after the reason, so that the translator refuses
+        exactly the specs whose translated region holds the statement."""
+        def int_lit(e):
+            if isinstance(e, ast.Constant) and type(e.value) is int:
+                return e.value
+            if isinstance(e, ast.UnaryOp) and isinstance(e.op, ast.USub) and isinstance(e.operand, ast.Constant) \
+                    and type(e.operand.value) is int:
+                return -e.operand.value
+            return None
+        def shape(t):
+            """(table text, row, column) of a target T.iloc[K, T.columns.get_loc('col')], else None"""
+            if not (isinstance(t, ast.Subscript) and isinstance(t.value, ast.Attribute) and t.value.attr == 'iloc'
+                    and isinstance(t.slice, ast.Tuple) and len(t.slice.elts) == 2):
+                return None
+            row, c = int_lit(t.slice.elts[0]), t.slice.elts[1]
+            if row is None or not (isinstance(c, ast.Call) and isinstance(c.func, ast.Attribute) and c.func.attr == 'get_loc'
+                                   and isinstance(c.func.value, ast.Attribute) and c.func.value.attr == 'columns'
+                                   and len(c.args) == 1 and not c.keywords and isinstance(c.args[0], ast.Constant)
+                                   and isinstance(c.args[0].value, str)):
+                return None
+            tbl = ast.unparse(t.value.value)
+            if ast.unparse(c.func.value.value) != tbl:
+                return None
+            return tbl, row, c.args[0].value
+        me = shape(tgt)
+        if me is None:
+            return None
+        tbl, row, col = me
+        poison = 'augmented_cell_store' if isinstance(s, ast.AugAssign) else ''
+        for x in ast.walk(getattr(self, 'cur_fnode', None) or ast.Module(body=[], type_ignores=[])):
+            if isinstance(x, ast.Subscript) and isinstance(x.ctx, ast.Store):
+                base = x.value.value if isinstance(x.value, ast.Attribute) and x.value.attr in ('iloc', 'loc', 'iat', 'at') else x.value
+                if ast.unparse(base) != tbl:
+                    continue
+                other = shape(x)
+                if other is None:
+                    poison = poison or 'cell_store_beside_another_subscript_store_into_the_table'
+                elif other[2] == col and other[1] != row:
+                    poison = poison or 'cell_stores_into_two_rows_of_one_column__the_same_cell_in_a_short_table'
+        new = ast.Subscript(value=ast.Subscript(value=self.as_load(tgt.value), slice=ast.Constant(value=row), ctx=ast.Load()),
+                            slice=ast.Constant(value=col), ctx=ast.Store())
+        return new, poison
 
     @staticmethod
     def as_load(n):
@@ -1375,6 +1491,9 @@ class FnTranslator:
                 for nm, term in reversed(lets):
                     body = '(let %s := %s in %s)' % (nm, term, body)
                 return body
+            if not names:
+                # [loop ties C03] fail-closed instead of an IndexError: an `if` of assignments none of which is read later
+                raise Refuse('%s: `if %s:` assigns nothing that is read afterwards' % (self.rel, ast.unparse(s.test)))
             tterm, eterm = wrap(tvals[0], tt), wrap(evals[0], et)
             if nw is not None:
                 whole = '(match %s with Some %s => if %s then %s else %s | None => %s end)' % (env[name][0], inner, c, tterm, eterm, eterm)
@@ -1738,6 +1857,7 @@ class FnTranslator:
         self.attr_store_ok = tuple(sp.get('attr_stores', ()))
         self.tries = sp.get('tries')                 # [loop ties C15] see try_stmt
         self.row_filter = sp.get('row_filter')       # [loop ties C15] see block(), Return
+        self.row_keep = sp.get('row_keep')           # [loop ties C20] see desugar(): `T = T[mask]` per row
         self.columns = sp.get('columns')             # [loop ties C05] see expr(), ListComp / np.apply_along_axis
         for nm in self.attr_store_ok:
             for x in ast.walk(fnode):
